@@ -171,6 +171,8 @@ type pathCtx struct {
 
 	clock     int // number of time.Now calls
 	lastClock *Term
+	clockOrigin *Term
+	clockOffset *Term
 	obs       []string
 	regexCache map[string]*regexObj
 	extra     map[string]value
